@@ -68,11 +68,24 @@ var notCovered = map[string][]string{
 func cmdCheck(args []string) {
 	fs := flag.NewFlagSet("check", flag.ExitOnError)
 	tier := fs.String("tier", "", "quick or thorough")
-	fs.Parse(args)
-	if fs.NArg() != 1 {
+	// flags may follow the property id
+	var pos, flg []string
+	for i := 0; i < len(args); i++ {
+		if strings.HasPrefix(args[i], "-") {
+			flg = append(flg, args[i])
+			if !strings.Contains(args[i], "=") && i+1 < len(args) {
+				flg = append(flg, args[i+1])
+				i++
+			}
+		} else {
+			pos = append(pos, args[i])
+		}
+	}
+	fs.Parse(flg)
+	if len(pos) != 1 {
 		die("usage: apdvc check <property> [--tier quick|thorough]")
 	}
-	prop := fs.Arg(0)
+	prop := pos[0]
 	if *tier == "" {
 		*tier = os.Getenv("VERIF_TIER")
 	}
@@ -140,12 +153,12 @@ func cmdCheck(args []string) {
 	lemmaObls := lemmaObligations(W, prop)
 	obls = append(obls, lemmaObls...)
 
-	timeout := 10 * time.Second
+	timeout := 20 * time.Second
 	portfolio := []string{"z3-new", "z3", "cvc5"}
 	if *tier == "thorough" {
-		timeout = 60 * time.Second
+		timeout = 90 * time.Second
 	}
-	solveAll(obls, timeout, portfolio, 16)
+	solveAll(obls, timeout, portfolio, 6)
 
 	known := loadKnown()
 	isKnown := func(o *Obligation) *KnownFinding {
@@ -288,7 +301,7 @@ func cmdCheck(args []string) {
 func lemmaObligations(W *World, prop string) []*Obligation {
 	var out []*Obligation
 	for _, lm := range W.spec.Lemmas {
-		if lm.Assumed || !hasTag(lm.Tags, prop) {
+		if lm.Assumed || (prop != "" && !hasTag(lm.Tags, prop)) {
 			continue
 		}
 		g := newGen(W, false)
@@ -307,6 +320,17 @@ func lemmaObligations(W *World, prop string) []*Obligation {
 				ty := env.parseType(p.Type)
 				c := g.named("l_"+p.Name, ty.sort())
 				env.vars[p.Name] = SVal{T: c, Ty: ty}
+			}
+			for _, u := range lm.Using {
+				call, ok := u.(*ECall)
+				if !ok {
+					panic("using needs a lemma application")
+				}
+				other := W.spec.lemma(call.Fn)
+				if other == nil || other == lm {
+					panic("using: unknown lemma " + call.Fn)
+				}
+				g.assume(instantiateLemma(env, other, call.Args))
 			}
 			goal := env.boolean(lm.Body)
 			out = append(out, &Obligation{Name: "lemma/" + lm.Name, Fn: "lemma", Class: "G", Tags: lm.Tags, Guard: TTrue, Goal: goal, NFacts: len(g.facts), NDecls: len(g.decls), gen: g, Src: lm.Src})
